@@ -186,9 +186,21 @@ func setMeasurement(in any, val string) error {
 func doCast(result interface{}, tInfo string) (interface{}, ast.DType) {
 	switch strings.ToLower(tInfo) {
 	case "bool":
+		// script numbers are int64/float64, which conv.ToBool does not know
+		// (it would turn every one of them into false)
+		switch v := result.(type) {
+		case int64:
+			return v != 0, ast.Bool
+		case float64:
+			return v != 0, ast.Bool
+		}
 		return conv.ToBool(result), ast.Bool
 
 	case "int":
+		if v, ok := result.(int64); ok {
+			// no detour through float64: it loses integers beyond 2^53
+			return v, ast.Int
+		}
 		return conv.ToInt64(conv.ToFloat64(result)), ast.Int
 
 	case "float":
